@@ -23,7 +23,7 @@ def match_known(known, r, f):
     return None
 
 
-def write_replay(verif, h, r, f, k, tier):
+def write_replay(verif, h, r, f, k, tier, also=()):
     d = os.path.join(verif, 'replays', h['property'])
     os.makedirs(d, exist_ok=True)
     path = os.path.join(d, '%s-%s-%d.json' % (r['id'], tier, k))
@@ -31,7 +31,7 @@ def write_replay(verif, h, r, f, k, tier):
     for i in f['inputs']:
         vals.append(i['bits'] if i.get('kind') == 'double' else i['value'])
     doc = dict(property=h['property'], harness=r['id'], entry=h['entry'], tier=tier, assertion=f['label'],
-               cbmc_property=f['cbmc_property'], inputs=f['inputs'], values=vals, bounds=r.get('bounds', {}),
+               cbmc_property=f['cbmc_property'], inputs=f['inputs'], values=vals, bounds=r.get('bounds', {}), other_failed_assertions_of_this_query=list(also),
                how_to_replay='engine/vcheck-replay %s' % os.path.relpath(path, verif))
     json.dump(doc, open(path, 'w'), indent=1)
     return path
@@ -67,6 +67,13 @@ def native_build(verif, repo, h, bounds, scratch, sanitize=True):
     tus = []
     for tu in h['tus']:
         if tu.startswith('/'):
+            continue
+        if tu.startswith('@'):
+            m = tu[1:]
+            for x in MODULE_DEPS[m]:
+                if x not in mods:
+                    mods.append(x)
+            tus += [os.path.basename(f) for f in glob.glob('%s/src/%s/*.cxx' % (repo, m))]
             continue
         m = tu.split('/')[1]
         tus.append(os.path.basename(tu))
